@@ -64,8 +64,8 @@ type (
 		// Active receivers
 		// RegisterActiveReceiver registers an active receiver for watermark propagation
 		RegisterActiveReceiver(sourceShardID history.ClusterShardID, receiver ActiveReceiver)
-		// UnregisterActiveReceiver removes an active receiver
-		UnregisterActiveReceiver(sourceShardID history.ClusterShardID)
+		// UnregisterActiveReceiver removes an active receiver, if it is still the registered one
+		UnregisterActiveReceiver(sourceShardID history.ClusterShardID, receiver ActiveReceiver)
 		// GetActiveReceiver returns the active receiver for the given source shard
 		GetActiveReceiver(sourceShardID history.ClusterShardID) (ActiveReceiver, bool)
 		// TerminatePreviousLocalReceiver checks if there is a previous local receiver for this shard and terminates it if needed
@@ -1078,11 +1078,15 @@ func (sm *shardManagerImpl) RegisterActiveReceiver(sourceShardID history.Cluster
 	sm.activeReceivers[sourceShardID] = receiver
 }
 
-// UnregisterActiveReceiver removes an active receiver
-func (sm *shardManagerImpl) UnregisterActiveReceiver(sourceShardID history.ClusterShardID) {
+// UnregisterActiveReceiver removes an active receiver. Several receivers can exist for one source shard
+// (one per target shard it feeds, or an old and a new incarnation); only the one that is currently
+// registered may remove the entry, so that an ending receiver does not unregister a live one.
+func (sm *shardManagerImpl) UnregisterActiveReceiver(sourceShardID history.ClusterShardID, receiver ActiveReceiver) {
 	sm.activeReceiversMu.Lock()
 	defer sm.activeReceiversMu.Unlock()
-	delete(sm.activeReceivers, sourceShardID)
+	if current, ok := sm.activeReceivers[sourceShardID]; ok && current == receiver {
+		delete(sm.activeReceivers, sourceShardID)
+	}
 }
 
 // GetActiveReceiver returns the active receiver for the given source shard
